@@ -2,7 +2,11 @@
 
 package simrt
 
+import "unsafe"
+
 const RaceBuild = false
 
-func raceOff() {}
-func raceOn()  {}
+func raceOff()                     {}
+func raceOn()                      {}
+func raceRelease(p unsafe.Pointer) {}
+func raceAcquire(p unsafe.Pointer) {}
